@@ -884,8 +884,8 @@ int main(int argc, char** argv) {
 
   // ---------- Collider, n = 4, 5 (thorough: 6) with 1-D boxes along each axis
   for (int n = 4; n <= (thorough ? 6 : 5); ++n) {
-    auto seqs = codeSeqs(n, SYM5);
-    const int nax = (n == 6 || (!thorough && n == 5)) ? 1 : 3;  // quick n=5: along x only (n=4 covers every axis)
+    auto seqs = codeSeqs(n, asanQuick && n == 5 ? std::vector<uint32_t>{0, 5, 0x3FFFFFFFu} : SYM5);
+    const int nax = (n == 6 || (!thorough && n == 5) || asanQuick) ? 1 : 3;  // quick n=5: along x only (n=4 covers every axis)
     const int niv = asanQuick ? 3 : 6;                              // ASan quick: intervals over {0,1}
     std::vector<int> radix;
     for (int i = 0; i < n; ++i) radix.push_back(niv);
@@ -934,7 +934,7 @@ int main(int argc, char** argv) {
     for (int a = 0; a < 3; ++a)
       for (int b = 0; b < 3; ++b)
         for (int cc = 0; cc < 3; ++cc) b27.push_back(IB{{IVS[a][0], IVS[b][0], IVS[cc][0]}, {IVS[a][1], IVS[b][1], IVS[cc][1]}});
-    for (int n = 2; n <= (asanQuick ? 3 : 4); ++n) {
+    for (int n = 2; n <= (asanQuick ? 2 : 4); ++n) {
       std::vector<int> radix(n, 27);
       R.phase("col-morton-n" + std::to_string(n), product(radix), 27,
               [&, n](uint64_t idx, Ctx& c) {
@@ -973,7 +973,7 @@ int main(int argc, char** argv) {
   {
     std::vector<uint32_t> sym = SYM5;
     if (thorough) sym = {0, 1, 4, 5, 6, 0x3FFFFFFFu};
-    const int Lmax = thorough ? 20 : asanQuick ? 12 : 16, k = (int)sym.size();
+    const int Lmax = thorough ? 20 : asanQuick ? 10 : 16, k = (int)sym.size();
     std::vector<uint64_t> off = {0};
     for (int n = 2; n <= Lmax; ++n) off.push_back(off.back() + nMulti(n, k));
     R.phase("radix-shape", off.back() * 2, 64,
@@ -999,9 +999,9 @@ int main(int argc, char** argv) {
   {
     std::vector<int> Ls, Ps = {0, 1, 2, 3, 7, 8, 9, 127, 128, 129, 130}, Ss = {0, 1, 2, 128, 129};
     if (asanQuick) {
-      Ls = {127, 128, 129, 511, 512, 513};
-      Ps = {0, 1, 128, 129};
-      Ss = {0, 1, 129};
+      Ls = {128, 129, 512, 513};
+      Ps = {0, 1, 129};
+      Ss = {0, 1};
     } else {
       for (int L = 126; L <= 131; ++L) Ls.push_back(L);
       for (int L = 510; L <= 515; ++L) Ls.push_back(L);
@@ -1024,7 +1024,7 @@ int main(int argc, char** argv) {
             },
             {"cases", "pairs_expected", "max_depth_sum"});
     // two adjacent long runs
-    if (asanQuick) Ls = {127, 129, 511, 513};
+    if (asanQuick) Ls = {129, 513};
     std::vector<int> radix2 = {(int)Ls.size(), (int)Ls.size(), 2};
     R.phase("radix-runs2", product(radix2), 1,
             [&](uint64_t idx, Ctx& c) {
@@ -1131,10 +1131,10 @@ int main(int argc, char** argv) {
           if (a != b && (directed || a < b)) s.push_back({a / m, a % m, b / m, b % m});
       return s;
     };
-    // ASan quick: k = 3, 4 over undirected segments (36 / 6) instead of directed ones (72 / 12)
-    std::vector<Seg> s72 = segsOf(3, true), s12 = segsOf(2, !asanQuick), s36 = segsOf(3, false);
+    // ASan quick: k = 2 over the 36 undirected segments of {0,1,2}^2, k = 3, 4 over the 12 directed ones of {0,1}^2
+    std::vector<Seg> s72 = segsOf(3, true), s12 = segsOf(2, true), s36 = segsOf(3, false);
     for (int k = 2; k <= (thorough ? 5 : 4); ++k) {
-      const std::vector<Seg>& src = k == 2 ? s72 : k == 3 ? (asanQuick ? s36 : s72) : s12;
+      const std::vector<Seg>& src = asanQuick ? (k == 2 ? s36 : s12) : k <= 3 ? s72 : s12;
       std::vector<int> radix(k, (int)src.size());
       radix.push_back(2);
       radix.push_back(2);
@@ -1259,7 +1259,7 @@ int main(int argc, char** argv) {
   {
     // n <= 8: linear scan; 9..17: one split level; >= 18: the `<= 8` leaf rule is straddled at the second level
     std::vector<int> sizes;
-    for (int n = 0; n <= (asanQuick ? 10 : 12); ++n) sizes.push_back(n);
+    for (int n = 0; n <= (asanQuick ? 9 : 12); ++n) sizes.push_back(n);
     if (asanQuick) {
       // ASan quick subset: one split level only (the second level is in the seq-fast run and in thorough)
     } else {
@@ -1294,13 +1294,14 @@ int main(int argc, char** argv) {
               }
               int cnt[9];
               unrankMulti(i - off[si], n, 9, cnt);
-              std::vector<PolyVert> pts;
-              std::vector<std::pair<int, int>> orig;
+              PolyVert pts[32];
+              std::pair<int, int> orig[32];
+              int np = 0;
               for (int j = 0; j < 9; ++j) {
                 int p = ORD[ord][j];
                 for (int r = 0; r < cnt[p]; ++r) {
-                  pts.push_back({vec2(p / 3, p % 3), (int)pts.size()});
-                  orig.push_back({p / 3, p % 3});
+                  pts[np] = PolyVert{vec2(p / 3, p % 3), np};
+                  orig[np++] = {p / 3, p % 3};
                 }
               }
               // mult[p] = multiplicity of lattice point (p/3, p%3); the input lists the points in the stated order
@@ -1308,7 +1309,7 @@ int main(int argc, char** argv) {
               snprintf(ds, sizeof ds, "mult=[%d,%d,%d,%d,%d,%d,%d,%d,%d] order=%s", cnt[0], cnt[1], cnt[2], cnt[3], cnt[4], cnt[5], cnt[6], cnt[7], cnt[8],
                        ord == 0 ? "ascending" : ord == 1 ? "descending" : "4,0,8,2,6,1,7,3,5");
               c.describe(std::string("kd2d:") + ds);
-              VecView<PolyVert> view(pts.data(), pts.size());
+              VecView<PolyVert> view(pts, np);
               BuildTwoDTree(view);
               uint8_t hit[32];
               long pairs = 0;
@@ -1342,7 +1343,7 @@ int main(int argc, char** argv) {
                 pairs += hits;
                 if (hits > 0 && hits < n) nt = true;
               }
-              uint64_t h = pts.empty() ? 1 : hash_bytes(pts.data(), pts.size() * sizeof(PolyVert), n);
+              uint64_t h = hash_bytes(cnt, sizeof cnt, ord + 1);  // the input (multiset, order)
               c.distinct(h);
               if (nt && n > 8) c.nontrivial(h);
               c.count("cases");
@@ -1359,7 +1360,7 @@ int main(int argc, char** argv) {
     R.phase("kd2d-4x4", 65536, 64,
             [&](uint64_t idx, Ctx& c) {
               int n = __builtin_popcount((unsigned)idx);
-              if (n < 9 || (!thorough && n > (asanQuick ? 10 : 12))) {
+              if (n < 9 || (!thorough && n > (asanQuick ? 9 : 12))) {
                 c.count("skipped");
                 return;
               }
